@@ -209,7 +209,7 @@ class C20(Check):
 
     def units(self, tier, seed):
         us = [jtj_unit(("S",), None, 2, False), jtj_unit(("J", "S"), ("gamma", "beta"), 2, True), jtj_unit(("R", "J"), ("gamma",), 2, False),
-              jtj_unit(("R",), None, 2, True)]
+              jtj_unit(("R",), None, 2, True), jtj_unit(("R", "J"), None, 3, "per_state"), jtj_unit(("J", "S"), ("beta",), 3, "scalar")]
         names = ["xy_2s1e", "two_three", "ode_mixed", "bd_1s2e"] if tier == "quick" else \
             ["xy_2s1e", "two_three", "ode_mixed", "bd_1s2e", "sir", "saturating", "decay_1s1e", "exponential", "birth_by_origin"]
         for nm in names:
